@@ -181,7 +181,7 @@ pub fn run(ctx: &mut Ctx) -> &'static str {
     family!(ctx, "grade", G, Grade, Some(si_g as fn(&GradeUnit) -> f64), reps);
     family!(ctx, "weight", W, Weight, Some(si_w as fn(&WeightUnit) -> f64), reps);
 
-    let reps2 = ctx.n(4, 40);
+    let reps2 = ctx.n(6, 40);
     // create_time over every unit triple
     for su in S.iter() {
         for du in D.iter() {
@@ -196,6 +196,26 @@ pub fn run(ctx: &mut Ctx) -> &'static str {
                         1 => d = 0.0,
                         2 => s = -s,
                         3 if rng.chance(1, 2) => d = -d,
+                        // both arguments non-positive at once: a check on the QUOTIENT (or on one argument only)
+                        // lets these through — (-10 km/h, -5 km) is 0.5 h
+                        4 => {
+                            s = -s.abs();
+                            d = -d.abs();
+                        }
+                        5 => match rng.below(3) {
+                            0 => {
+                                s = 0.0;
+                                d = 0.0;
+                            }
+                            1 => {
+                                s = -s.abs();
+                                d = 0.0;
+                            }
+                            _ => {
+                                s = 0.0;
+                                d = -d.abs();
+                            }
+                        },
                         _ => {}
                     }
                     let r = Time::create(&Speed::new(s), su, &Distance::new(d), du, tu);
@@ -262,10 +282,15 @@ pub fn run(ctx: &mut Ctx) -> &'static str {
                     let Some(idx) = ctx.begin() else { continue };
                     let mut rng = Rng::for_case(ctx.seed, 9, idx as u64);
                     let mut t = { let k = 6 + rng.below(8); magnitude(&mut rng, k) };
-                    let d = { let k = 5 + rng.below(9); magnitude(&mut rng, k) };
+                    let mut d = { let k = 5 + rng.below(9); magnitude(&mut rng, k) };
                     match k {
                         0 => t = 0.0,
                         1 => t = -t,
+                        // time and distance both negative: the quotient is positive
+                        4 => {
+                            t = -t.abs();
+                            d = -d.abs();
+                        }
                         _ => {}
                     }
                     let r = Speed::create(&Time::new(t), tu, &Distance::new(d), du, su);
